@@ -200,7 +200,7 @@ package netflow9
 //@     invariant rdr(d.reader) && d.reader.base == old(d.reader.base) && msg != nil && wellFormed9(mem) && d.reader.count >= 20
 //@     invariant phdrAt(msg.Header, d.reader.base, 0)
 //@     invariant len(msg.DataSets) <= d.reader.count
-//@     invariant forall i :: 0 <= i && i < len(decodeErrors) ==> decodeErrors[i] != nil
+//@     invariant forall q :: decodeErrors.off <= q && q < decodeErrors.off + len(decodeErrors) ==> decodeErrors.arr[q] != nil
 //@     decreases len(d.reader.data)
 
 //@ func combineErrors
